@@ -62,6 +62,12 @@ func (r *runner) Op(t []string) string {
 			return "bad-op"
 		}
 		return e.DropMeasurement(t[1]) + " " + r.seen()
+	case t[0] == "race" && len(t) == 3:
+		if !e.ValidBatch(t[1:2]) || !e.ValidBatch(t[2:3]) {
+			return "bad-op"
+		}
+		ra, rb := e.Race(t[1:2], t[2:3])
+		return ra + " / " + rb + " / " + r.seen()
 	case t[0] == "reopen" && len(t) == 1:
 		return r.restarted("clean", e.Reopen())
 	case t[0] == "crash" && len(t) == 1:
